@@ -32,6 +32,14 @@ variable {D R : Type}
 /-- The model instantiated with the lists regenerated from the source, and the concrete normalisations. -/
 def tree : Cfg := Cfg.ofTables Gen.preGate Gen.authAllow Code.normLoop Code.normFrame
 
+/-- A password-protected server with a canary key, one fresh (unauthenticated) connection. -/
+def witnessServer : Server KS.Store :=
+  { password := some [112], conns := [⟨1, .connected⟩], store := [[([107], ⟨.str [118], none⟩)]],
+    subs := [], replicas := [], monitors := [] }
+
+/-- A dispatch that does nothing (the witness never reaches dispatch). -/
+def noDispatch : Dispatch KS.Store Unit := fun s _ _ _ => (s, ())
+
 /-! ### Table theorems (re-proved against the regenerated lists on every run) -/
 
 /-- The gate's allow-list is exactly AUTH → `handle_auth`, PING → `handle_ping`, QUIT → `+OK`. -/
@@ -242,6 +250,31 @@ theorem auth_is_per_connection (cfg : Cfg) {h : Dispatch D R} (hh : Honest h) (s
     low (stateOf (Code.run cfg h s evs).1.conns b) ∧ (Code.run cfg h s evs).1.password = some pw :=
   ⟨(run_low hh pw b evs hno s hpw hb).2, (run_low hh pw b evs hno s hpw hb).1⟩
 
+/-- Non-vacuity (and a computed instance): connection 1 exists unauthenticated, 2 is accepted, authenticates
+    with the exact password and works; 1 meanwhile sends a refused command, a wrong password (a prefix) and
+    a PING, and 2 sends QUIT.  Afterwards 1 is still `Connected`, 2 is `Closing`, and 1's replies are
+    NOAUTH, an error, PONG (2's SET and QUIT go through dispatch: it passed the gate). -/
+example :
+    let evs : List Code.Event :=
+      [.accept 2, .batch 2 [.cmd [97, 117, 116, 104] [some [112]]], .batch 1 [.cmd [71, 69, 84] [some [107]], .cmd AUTH [some []], .cmd PING []],
+       .batch 2 [.cmd [83, 69, 84] [some [107], some [120]], .cmd QUIT []], .wake 1]
+    neverAuthenticates tree [112] 1 evs ∧
+    stateOf (Code.run tree noDispatch witnessServer evs).1.conns 1 = some .connected ∧
+    stateOf (Code.run tree noDispatch witnessServer evs).1.conns 2 = some .closing ∧
+    (Code.run tree noDispatch witnessServer evs).2 =
+      [[], [.ok], [.error .noauth, .error .other, .pong], [.dispatched (), .dispatched ()], []] := by
+  refine ⟨?_, by decide, by decide, rfl⟩
+  intro reqs hm r hr
+  simp only [List.mem_cons, List.mem_nil_iff, or_false] at hm
+  rcases hm with hm | hm | hm | hm | hm
+  · simp at hm
+  · simp at hm
+  · obtain rfl : reqs = [.cmd [71, 69, 84] [some [107]], .cmd AUTH [some []], .cmd PING []] := by simpa using hm
+    simp only [List.mem_cons, List.mem_nil_iff, or_false] at hr
+    rcases hr with rfl | rfl | rfl <;> decide
+  · simp at hm
+  · simp at hm
+
 /-- The two-connection instance the property names: `a` authenticates with the exact password; `b` stays
     exactly as it was. -/
 theorem auth_of_a_leaves_b (h : Dispatch D R) (s : Server D) (a b : Nat) (hab : b ≠ a) (pw : Bytes)
@@ -289,6 +322,11 @@ theorem pipeline_position_irrelevant (cfg : Cfg) {h : Dispatch D R} (hh : Honest
   refine ⟨k, ?_⟩
   rw [runFrames_append, runFrames_append]
   simp only [Code.runFrames, hk]
+
+/-- Non-vacuity: `PING; GET canary; PING x` from the fresh connection of the witness server. -/
+example :
+    Code.runFrames tree noDispatch witnessServer 1 [.cmd PING [], .cmd [71, 69, 84] [some [107]], .cmd PING [some [120]]]
+      = (witnessServer, [.pong, .error .noauth, .echo (some [120])]) := rfl
 
 /-- The refused command's reply sits at index `pre.length` of the reply list. -/
 theorem pipeline_reply_at_position (cfg : Cfg) {h : Dispatch D R} (hh : Honest h) (s : Server D) (c : Nat)
@@ -384,14 +422,6 @@ theorem sync_before_gate_leaks (cfg : Cfg) (h : Dispatch D R) (s : Server D) (c 
   refine ⟨by simp [Code.syncCommand], ?_⟩
   unfold Code.registerReplica
   by_cases hc : c ∈ s.replicas <;> simp [hc]
-
-/-- A password-protected server with a canary key, one fresh (unauthenticated) connection. -/
-def witnessServer : Server KS.Store :=
-  { password := some [112], conns := [⟨1, .connected⟩], store := [[([107], ⟨.str [118], none⟩)]],
-    subs := [], replicas := [], monitors := [] }
-
-/-- A dispatch that does nothing (the witness never reaches dispatch). -/
-def noDispatch : Dispatch KS.Store Unit := fun s _ _ _ => (s, ())
 
 /-- The witness, computed: on the pinned order of processing the fresh connection's `SYNC` (or `sync`, or
     `ſync` — U+017F upper-cases to `S`) and `PSYNC ? -1` receive the dataset with the canary in it and
